@@ -27,6 +27,20 @@ def _cell_violations(w, where):
             tot = [t + d for t, d in zip(tot, app.demand)]
             if app.server != sname:
                 out.append(('views-disagree', '%s: server %s lists %s whose own server is %r' % (where, sname, aname, app.server)))
+        # the capacity the scheduler works with is the one the server DECLARED (its record in the store), not merely
+        # whatever the Server object happens to hold
+        ent = w.b.d.get('/servers/' + sname)
+        rec = ent[0] if isinstance(ent, tuple) else ent
+        if isinstance(rec, dict) and 'memory' in rec and sname not in getattr(w, 'pending_deletes', ()):
+            declared = [float(str(rec['memory']).rstrip('M')), float(str(rec['cpu']).rstrip('%')),
+                        float(str(rec['disk']).rstrip('M'))]
+            if [float(x) for x in srv.init_capacity] != declared:
+                out.append(('capacity-differs-from-declared-record',
+                            '%s: server %s works with capacity %r but its record declares %r'
+                            % (where, sname, list(srv.init_capacity), declared)))
+            if any(t > c for t, c in zip(tot, declared)):
+                out.append(('oversubscribed', '%s: server %s summed demand %r exceeds declared capacity %r'
+                            % (where, sname, tot, declared)))
         if any(t > c for t, c in zip(tot, srv.init_capacity)):
             out.append(('oversubscribed', '%s: server %s summed demand %r exceeds capacity %r'
                         % (where, sname, tot, list(srv.init_capacity))))
